@@ -100,6 +100,8 @@ where
     let mut improvement = true;
     let mut partitions: Vec<Vec<HashSet<usize>>> = vec![];
     while improvement {
+        #[cfg(feature = "verif")]
+        crate::verif::tick();
         partitions.push(partition.to_vec());
         let new_mod =
             partitions::modularity(&graphu, &inner_partition, weighted, resolution).unwrap();
@@ -167,6 +169,8 @@ fn compute_one_level(
     let mut nb_moves = 1;
     let mut improvement = false;
     while nb_moves > 0 {
+        #[cfg(feature = "verif")]
+        crate::verif::tick();
         nb_moves = 0;
         for u in &shuffled_nodes {
             let mut best_mod = 0.0;
